@@ -128,10 +128,13 @@ _INF = float('inf')
 
 
 class SBool:
-    __slots__ = ('e',)
+    __slots__ = ('e', 'gap')
 
-    def __init__(self, e):
+    def __init__(self, e, gap=None):
         self.e = e
+        # for an equality claim: (lhs - rhs), so that a counterexample with a visible gap can be preferred over one that
+        # differs by less than any tolerance a native replay could see
+        self.gap = gap
 
     def __bool__(self):
         return cur().branch(self.e)
@@ -1161,7 +1164,9 @@ class Ctx:
         unsat.  Also checks the path's reachability twin (pc sat)."""
         st = self.ex.stats
         st.claims += 1
+        gap = None
         if isinstance(formula, SBool):
+            gap = formula.gap
             formula = formula.e
         if isinstance(formula, bool):
             formula = z3.BoolVal(formula)
@@ -1201,6 +1206,16 @@ class Ctx:
                 return None
             m = m2
         st.violated += 1
+        if gap is not None:
+            # an equality is violated: prefer a counterexample in which the two sides differ visibly (a difference below
+            # the tolerance of the native replay would be reported as "does not reproduce")
+            self._robust = False
+            for tol in (1e-3, 1e-6):
+                r4, m4 = self._check(z3.Not(formula), z3.Or(gap > tol, gap < -tol))
+                if r4 == z3.sat:
+                    m = m4
+                    self._robust = True
+                    break
         # a few more models that differ from the first in every real-valued
         # input: a counterexample sitting exactly on a rounding tie (where the
         # exact-real model and CPython differ) need not reproduce natively
@@ -1385,7 +1400,9 @@ class Explorer:
         if status == 'violated':
             inputs = ctx.model_inputs(model)
             self.violations.append({'claim': name, 'inputs': inputs, 'detail': detail,
-                                    'decisions': len(ctx.decisions), 'alt_inputs': alts or []})
+                                    'decisions': len(ctx.decisions), 'alt_inputs': alts or [],
+                                    'robust': getattr(ctx, '_robust', None)})
+            ctx._robust = None
         if len(self.samples) < self.max_samples:
             self.samples.append({
                 'claim': name, 'status': status,
@@ -1500,7 +1517,8 @@ def eq(a, b):
         if isinstance(a, (int, Fraction)) and isinstance(b, (int, Fraction)) and not isinstance(a, bool):
             return a == b
         return abs(a - b) <= _tol(a, b)
-    return SBool(lift_real(a) == lift_real(b))
+    la, lb = lift_real(a), lift_real(b)
+    return SBool(la == lb, gap=la - lb)
 
 
 def le(a, b):
